@@ -160,7 +160,7 @@ def jsonToValue : Json → Option Value
                      | _, _ => none)
        | _ => none)
     else if k = J.Array then (match j with | .arr l => (jsonToValues l).map .array | _ => none)
-    else if k = J.Collection then (match j with | .obj kv => (jsonToMembers kv).map .coll | _ => none)
+    else if k = J.Collection then (match j with | .obj kv => (jsonToMembers kv).map (fun ms => .coll (sinsertAll ms [])) | _ => none)
     else match strKindOfName k, j with
       | some sk, .str s => some (.str sk s)
       | _, _ => none
@@ -170,7 +170,7 @@ def jsonToValues : List Json → Option (List Value)
   | j :: r => match jsonToValue j, jsonToValues r with
     | some v, some vs => some (v :: vs)
     | _, _ => none
-/-- `BTreeMap` deserialisation: insert the entries in document order -/
+/-- the entries of a JSON object as (key, value) pairs in document order (the caller inserts them into the `BTreeMap`) -/
 def jsonToMembers : List (Bytes × Json) → Option (List (Bytes × Value))
   | [] => some []
   | (k, j) :: r => match jsonToValue j, jsonToMembers r with
